@@ -351,6 +351,10 @@ def work(chunk):
 
 
 def replay(case):
+    if case.get("engine") == "loomx":
+        from .. import loomx as _lx
+
+        return _lx.replay(case)
     common.prepare_stage()
     if case["kind"] == "history":
         probs, r = histories.run_history(case["cfgs"], case["history"], CLAUSES)
